@@ -792,6 +792,33 @@ def check(assumptions, goal, timeout_ms=10000, seed=0, want_model=True, backends
   return {"status": "unknown", "backend": "all", "time_s": time.time() - t0, "reason": reason}
 
 
+SMALL_TACTICS = (("simplify", "solve-eqs", "smt"), ("simplify", "solve-eqs", "qfnra-nlsat"), None)
+
+
+def check_small(assumptions, goal, timeout_ms=5000):
+  """small hand-structured queries (a few hypotheses that are statements of earlier obligations): the untouched query
+  under a few tactic pipelines, each in a fresh context. Equation solving first matters: `x == t and not phi(x)` is
+  refuted by substitution, which the nonlinear core alone may not find. Only `unsat` (a proof) is reported."""
+  t0 = time.time()
+  for names in SMALL_TACTICS:
+    ctx = z3.Context()
+    if names is None:
+      sol = z3.Solver(ctx=ctx)
+    else:
+      sol = z3.Then(*[z3.Tactic(n, ctx) for n in names], ctx=ctx).solver()
+    sol.set("timeout", int(timeout_ms))
+    for a in assumptions:
+      sol.add(a.translate(ctx))
+    sol.add(z3.Not(goal).translate(ctx))
+    try:
+      r = sol.check()
+    except z3.Z3Exception:
+      continue
+    if r == z3.unsat:
+      return {"status": "unsat", "backend": "z3-5.1(api) [raw query, " + ("default" if names is None else "+".join(names)) + "]", "time_s": time.time() - t0}
+  return {"status": "unknown", "time_s": time.time() - t0}
+
+
 def check_quantified(assumptions, goal, timeout_ms=20000, seed=0, want_model=True):
   """obligations of wpv/hoare.py: quantified invariants over z3 arrays. z3 (E-matching + MBQI) first, then the two
   external solvers on the SMT-LIB text. `unsat` is a proof; `sat` is a model of the hypotheses and the negated goal."""
